@@ -247,7 +247,7 @@ def with_trailer(b: bytes, rnd: random.Random) -> bytes:
         return b
     oph, opl = _hdr(body, op_at)
     trailer = rnd.choice((b"\x85\x01x", b"\xa5\x00", b"\xdf\x87\x68\x00", b"\xa5\x04\x85\x02ab"))
-    constructed = bool(body[op_at] & 0x20)
+    constructed = bool(body[op_at] & 0x20) and body[op_at] != 0x73   # SearchResultReference is a SEQUENCE OF: every element is a URI
     if constructed and rnd.random() < 0.5:   # inside the operation (not for the primitive unbind / present-filter style ops)
         op = _tlv_(body[op_at], body[op_at + oph:op_at + oph + opl] + trailer)
         return _tlv_(0x30, body[:op_at] + op + body[op_at + oph + opl:])
